@@ -2,6 +2,7 @@
 //! decided by the run's choice sequence (C03, C04, later C06/C17/C18/C19).
 
 mod exec;
+mod pool;
 
 use simcore::worker::Scenario;
 
@@ -13,5 +14,6 @@ static ALLOC: simcore::quarantine::Quarantine = simcore::quarantine::Quarantine;
 fn main() {
     let mut scenarios: Vec<Scenario> = Vec::new();
     scenarios.extend(exec::scenarios());
+    scenarios.extend(pool::scenarios());
     simcore::worker::main(&scenarios)
 }
